@@ -42,10 +42,18 @@ type verifReal struct {
 	expect []verifMark
 }
 
-type verifCounter struct{ tok, link int }
+type verifCounter struct {
+	tok, link int
+	doc       int
+}
 
-func (c *verifCounter) token() string  { c.tok++; return fmt.Sprintf("L%d", c.tok) }
-func (c *verifCounter) target() string { c.link++; return fmt.Sprintf("https://t.example/%d", c.link) }
+func (c *verifCounter) token() string { c.tok++; return fmt.Sprintf("L%d", c.tok) }
+
+/* targets are unique across documents, so that links leaking from one post into another show */
+func (c *verifCounter) target() string {
+	c.link++
+	return fmt.Sprintf("https://t.example/d%d/%d", c.doc, c.link)
+}
 
 /* expected marks: reading order; a link-bearing node's number follows its own text */
 func verifExpect(nodes []verifNode, c *verifCounter, plain bool) []verifMark {
@@ -65,6 +73,9 @@ func verifExpect(nodes []verifNode, c *verifCounter, plain bool) []verifMark {
 			t := c.target()
 			out = append(out, verifExpect(n.Kids, c, plain)...)
 			out = append(out, verifMark{T: "lab", Target: t})
+		case "imgx": /* media without a source: its text, no number */
+			out = append(out, verifMark{T: "tok", Id: c.token()})
+		case "hr", "br", "long":
 		default:
 			out = append(out, verifExpect(n.Kids, c, plain)...)
 		}
@@ -90,6 +101,47 @@ func verifHTML(rng *rand.Rand, nodes []verifNode, c *verifCounter, inA bool, inH
 			default:
 				b.WriteString(fmt.Sprintf(`<iframe src="%s" title="%s"></iframe>`, t, id))
 			}
+		case "imgx":
+			switch id := c.token(); rng.Intn(3) {
+			case 0:
+				b.WriteString(fmt.Sprintf(`<img alt="%s">`, id))
+			case 1:
+				b.WriteString(fmt.Sprintf(`<video alt="%s"></video>`, id))
+			default:
+				b.WriteString(fmt.Sprintf(`<audio alt="%s"></audio>`, id))
+			}
+		case "hr":
+			b.WriteString("<hr>")
+		case "br":
+			b.WriteString("<br>")
+		case "long":
+			b.WriteString(strings.Repeat("w", 20+rng.Intn(120)) + " ")
+		case "ax":
+			if inA {
+				return "", false
+			}
+			kids, ok := verifHTML(rng, n.Kids, c, true, inH)
+			if !ok {
+				return "", false
+			}
+			b.WriteString("<a>" + kids + "</a>")
+		case "pre":
+			kids, ok := verifHTML(rng, n.Kids, c, inA, inH)
+			if !ok {
+				return "", false
+			}
+			if rng.Intn(2) == 0 {
+				b.WriteString("<pre>" + kids + "</pre>")
+			} else {
+				b.WriteString("<pre><code>" + kids + "</code></pre>")
+			}
+		case "unk":
+			kids, ok := verifHTML(rng, n.Kids, c, inA, inH)
+			if !ok {
+				return "", false
+			}
+			tag := []string{"font", "center", "marquee", "x-custom", "small"}[rng.Intn(5)]
+			b.WriteString("<" + tag + ">" + kids + "</" + tag + ">")
 		case "a":
 			if inA {
 				return "", false /* anchors cannot nest in HTML */
@@ -142,6 +194,15 @@ func verifMarkdown(nodes []verifNode, c *verifCounter, inA bool, inline bool, qu
 		case "img":
 			t, id := c.target(), c.token()
 			b.WriteString(fmt.Sprintf("![%s](%s) ", id, t))
+		case "long":
+			b.WriteString(strings.Repeat("w", 100) + " ")
+		case "hr":
+			if inline {
+				return "", false
+			}
+			b.WriteString("\n\n" + quote + "---\n\n" + quote)
+		case "imgx", "br", "ax", "pre", "unk":
+			return "", false
 		case "a":
 			if inA {
 				return "", false
@@ -204,10 +265,28 @@ func verifGemtext(nodes []verifNode, c *verifCounter) (string, bool) {
 			if !ok {
 				return "", false
 			}
-			lines = append(lines, "> "+text)
+			lines = append(lines, []string{"> ", "* ", "# ", "## ", "### ", ">"}[len(lines)%6]+text)
+		case "long":
+			lines = append(lines, strings.Repeat("w", 130))
+		case "pre":
+			text, ok := verifFlatTokens(n.Kids, c)
+			if !ok {
+				return "", false
+			}
+			lines = append(lines, "```", text+" "+strings.Repeat("=", 90), "```")
+		case "hr":
+			/* a preformatted block whose closing fence is missing */
+			if len(lines) > 0 && len(nodes) > 0 && &n == &nodes[len(nodes)-1] {
+				return "", false
+			}
+			lines = append(lines, strings.Repeat("-", 100))
 		default:
 			return "", false
 		}
+	}
+	if len(nodes) > 0 && nodes[len(nodes)-1].T == "long" {
+		/* end inside an unterminated preformatted block */
+		lines = append(lines[:len(lines)-1], "```", strings.Repeat("x", 140))
 	}
 	return strings.Join(lines, "\n"), true
 }
@@ -222,6 +301,10 @@ func verifPlain(nodes []verifNode, c *verifCounter) (string, bool) {
 			t := c.target()
 			c.token()
 			words = append(words, t)
+		case "long":
+			words = append(words, strings.Repeat("w", 150))
+		case "br":
+			words = append(words, "\n        ")
 		default:
 			return "", false
 		}
@@ -230,25 +313,25 @@ func verifPlain(nodes []verifNode, c *verifCounter) (string, bool) {
 }
 
 /* all realisations of a document that its markup can express */
-func verifRealise(rng *rand.Rand, doc []verifNode) []verifReal {
+func verifRealise(rng *rand.Rand, doc []verifNode, di int) []verifReal {
 	out := []verifReal{}
-	if text, ok := verifHTML(rng, doc, &verifCounter{}, false, false); ok {
-		out = append(out, verifReal{"html", "text/html", text, verifExpect(doc, &verifCounter{}, false)})
+	if text, ok := verifHTML(rng, doc, &verifCounter{doc: di}, false, false); ok {
+		out = append(out, verifReal{"html", "text/html", text, verifExpect(doc, &verifCounter{doc: di}, false)})
 	}
-	if text, ok := verifMarkdown(doc, &verifCounter{}, false, false, ""); ok {
-		out = append(out, verifReal{"markdown", "text/markdown", text, verifExpect(doc, &verifCounter{}, false)})
+	if text, ok := verifMarkdown(doc, &verifCounter{doc: di}, false, false, ""); ok {
+		out = append(out, verifReal{"markdown", "text/markdown", text, verifExpect(doc, &verifCounter{doc: di}, false)})
 	}
-	if text, ok := verifGemtext(doc, &verifCounter{}); ok {
-		out = append(out, verifReal{"gemtext", "text/gemini", text, verifExpect(doc, &verifCounter{}, false)})
+	if text, ok := verifGemtext(doc, &verifCounter{doc: di}); ok {
+		out = append(out, verifReal{"gemtext", "text/gemini", text, verifExpect(doc, &verifCounter{doc: di}, false)})
 	}
-	if text, ok := verifPlain(doc, &verifCounter{}); ok {
-		out = append(out, verifReal{"plain", "text/plain", text, verifExpect(doc, &verifCounter{}, true)})
+	if text, ok := verifPlain(doc, &verifCounter{doc: di}); ok {
+		out = append(out, verifReal{"plain", "text/plain", text, verifExpect(doc, &verifCounter{doc: di}, true)})
 	}
 	return out
 }
 
 var verifSGR = regexp.MustCompile("\x1b\\[[0-9;]*m")
-var verifMarkRe = regexp.MustCompile(`https://t\.example/[0-9]+|[LA][0-9]+|[⁰¹²³⁴⁵⁶⁷⁸⁹]+`)
+var verifMarkRe = regexp.MustCompile(`https://t\.example/d[0-9]+/[0-9]+|[LA][0-9]+|[⁰¹²³⁴⁵⁶⁷⁸⁹]+`)
 
 func verifReadMarks(rendered string) []verifMark {
 	plain := verifSGR.ReplaceAllString(rendered, "")
@@ -292,12 +375,13 @@ func verifRandomDoc(rng *rand.Rand, depth int) []verifNode {
 	n := 1 + rng.Intn(4)
 	out := make([]verifNode, n)
 	for i := range out {
-		kind := []string{"txt", "txt", "img", "a", "sty", "blk"}[rng.Intn(6)]
-		if depth == 0 && kind != "img" {
-			kind = "txt"
+		kind := []string{"txt", "txt", "img", "a", "sty", "blk", "imgx", "hr", "br", "long", "ax", "pre", "unk", "img", "a"}[rng.Intn(15)]
+		inner := kind == "a" || kind == "sty" || kind == "blk" || kind == "ax" || kind == "pre" || kind == "unk"
+		if depth == 0 && inner {
+			kind, inner = "txt", false
 		}
 		out[i] = verifNode{T: kind}
-		if kind == "a" || kind == "sty" || kind == "blk" {
+		if inner {
 			out[i].Kids = verifRandomDoc(rng, depth-1)
 		}
 	}
@@ -310,7 +394,7 @@ func verifPostObject(r verifReal, attachments int) (object.Object, []verifMark) 
 	if attachments > 0 {
 		list := []any{}
 		for i := 0; i < attachments; i++ {
-			t := fmt.Sprintf("https://t.example/att%d", i+1)
+			t := fmt.Sprintf("https://t.example/att%d-%d", len(r.text), i+1)
 			name := fmt.Sprintf("A%d", i+1)
 			if i%2 == 0 {
 				list = append(list, map[string]any{"type": "Link", "href": t, "name": name, "mediaType": "image/png"})
@@ -336,11 +420,26 @@ func TestVerifMarkup(t *testing.T) {
 	rng := verifkit.Rand()
 	docs := in.Docs
 	for i := 0; i < in.Random; i++ {
+		if i%8 == 0 {
+			/* many links: two-digit numbers */
+			flat := []verifNode{}
+			for k := 10 + rng.Intn(18); k > 0; k-- {
+				if rng.Intn(3) == 0 {
+					flat = append(flat, verifNode{T: "img"})
+				} else {
+					flat = append(flat, verifNode{T: "a", Kids: []verifNode{{T: "txt"}}})
+				}
+			}
+			docs = append(docs, flat)
+			continue
+		}
 		docs = append(docs, verifRandomDoc(rng, 1+rng.Intn(4)))
 	}
 	obj := 0
+	var prevPost *Post
+	var prevEvent verifkit.M
 	for di, doc := range docs {
-		for _, real := range verifRealise(rng, doc) {
+		for _, real := range verifRealise(rng, doc, di) {
 			attachments := 0
 			if di%3 == 0 {
 				attachments = 1 + rng.Intn(2)
@@ -376,7 +475,12 @@ func TestVerifMarkup(t *testing.T) {
 				})
 				sel = append(sel, link)
 			}
-			for _, w := range []int{80, 44, 30} {
+			widths := []int{80, 44, 30}
+			if strings.Contains(real.text, "<pre") || strings.Contains(real.text, "wwwwwwww") || strings.Contains(real.text, "```") {
+				/* hard wrapping may cut a token in two: read the numbers at widths where it does not */
+				widths = []int{220, 160}
+			}
+			for _, w := range widths {
 				var rendered string
 				p2, what2 := verifkit.Try(func() { rendered = post.String(w) })
 				ev := verifkit.M{"ev": "links", "markup": real.markup, "w": w, "marks": verifReadMarks(rendered), "expect": expect,
@@ -388,6 +492,31 @@ func TestVerifMarkup(t *testing.T) {
 				out.Emit(verifkit.M{"ev": "out", "kind": "post-string", "chk": []string{"noctl", "neutral"}, "w": w, "h": 0,
 					"toks": verifkit.Toks(rendered, nil), "expect": verifkit.M{}, "src": verifkit.Clip(real.text, 200)})
 			}
+			/* the post built before this one must still answer for its own links */
+			if prevPost != nil {
+				again := []string{}
+				for k := -1; k <= len(prevEvent["sel"].([]string))-2; k++ {
+					link := "panic"
+					verifkit.Try(func() {
+						target, _, present := prevPost.SelectLink(k)
+						link = target
+						if !present {
+							link = "none"
+						}
+					})
+					again = append(again, link)
+				}
+				var rendered string
+				verifkit.Try(func() { rendered = prevPost.String(220) })
+				ev := verifkit.M{}
+				for k, val := range prevEvent {
+					ev[k] = val
+				}
+				ev["sel"], ev["marks"], ev["w"], ev["later"] = again, verifReadMarks(rendered), 220, true
+				out.Emit(ev)
+			}
+			prevPost = post
+			prevEvent = verifkit.M{"ev": "links", "markup": real.markup, "expect": expect, "sel": sel, "doc": verifkit.Clip(real.text, 300), "panic": false}
 			/* C15: the body markup along a width sequence, against a fresh object each time */
 			if post.bodyErr != nil {
 				continue
